@@ -117,7 +117,7 @@ def gen_validators(rng):
 
 def gen(ctx):
     rng = ctx.rng('gen')
-    n = 600 if ctx.tier == 'quick' else 300000
+    n = 1800 if ctx.tier == 'quick' else 300000
     for _ in range(n):
         allowed, check, schema = gen_validators(rng)
         probe = Validators({'allowed': allowed, 'check': check, 'schema': schema}, [])
